@@ -27,7 +27,7 @@ File::File(const String &name, FileMode mode) : mode(mode), name(name) {
             if (ifile->peek() != std::ifstream::traits_type::eof()) {
                 while (!ifile->eof()) {
                     std::getline(*ifile, line);
-                    if (line.starts_with('#') && records.size() > 1) {
+                    if (line.starts_with('#') && records.size() > 0) {
                         records[records.size()-1] += '\n';
                         records[records.size()-1] += line;
                         continue;
